@@ -40,6 +40,18 @@ CHECKS = {
     text="A generated corpus (6k quick / 60k thorough distinct invocations) is expanded in baseline order, reversed, under 4 permutations, tripled/interleaved, from 4 threads and in >=6 fresh child processes with their own order, cleared/perturbed environment and working directory (plus every environment variable name found in the macro source, over a value matrix); every history must give the baseline's tokens for every key.",
     note="Cannot see non-determinism that needs a machine state none of the histories produces (a specific env var value, wall clock thresholds); children share the binary, so build-time non-determinism is out of scope.",
     design="§2 C20"),
+ "C16": dict(
+    technique="small-scope exhaustive enumeration plus property-based random lists of parameter patterns; structural oracle (syn) on the generated trait method and delegating method",
+    engine="E1",
+    text="Every valid pattern list of length <=3 over an 18-symbol alphabet (the 12 symbols of the statement plus lifted/renamed collision shapes, 3-binding and 0-binding destructures) x {deps, no_deps} is enumerated completely; longer lists (up to 7) x fn names x sync/async are sampled (100k quick / 2M thorough). Oracle: one plain ident per parameter, types in order, names pairwise distinct and != fn name, required names kept, ambiguous patterns get generated names, and the delegating call forwards exactly those idents positionally.",
+    note="Exhaustive only for the stated small scope; the compile-and-run leg through rustc is planned under E2. Don't-care: destructured bindings starting with `_`.",
+    design="§2 C16"),
+ "C18": dict(
+    technique="property-based testing with unique marker attributes: occurrence counting in the expansion, syn-level attribute-list comparison for mirrored trait methods and cfg gating",
+    engine="E1",
+    text="Generated fn/mod/trait/impl inputs carrying unique marker attributes on items, members and parameters, and enabled/disabled cfg predicates; each marker must occur exactly once (nothing copied to generated traits/impls, parameter attributes stripped), trait-method attribute lists must reappear identically on the delegating methods, and a cfg-disabled member fn must leave no ungated generated method. 150k quick / 3M thorough.",
+    note="cfg predicates are not evaluated in E1: `disabled` is known from the generator (`cfg(any())`, `cfg(not(all()))`) and the oracle demands the same attribute on the generated methods; the compile leg is planned under E2.",
+    design="§2 C18"),
 }
 
 NOT_YET = "check not built yet (build in progress; see DESIGN.md §2 for the planned oracle)"
